@@ -152,8 +152,98 @@ func (g *genState) pickInputs(k int, recency int) []int {
 		}
 		seen[t] = true
 		in = append(in, t)
+		// two arguments fed by ONE producer: a sibling result of a multi-value provider, the interface
+		// bound to the same result, or simply the same type twice
+		if sib := g.siblings(t); len(sib) > 0 && g.r.Chance(1, 4) {
+			s := sib[g.r.Intn(len(sib))]
+			if !seen[s] {
+				seen[s] = true
+				in = append(in, s)
+			}
+		} else if g.r.Chance(1, 20) && g.sp.Types[t].Kind != KCtx {
+			in = append(in, t)
+		}
 	}
 	return in
+}
+
+// siblings lists the other types the producer of t also supplies.
+func (g *genState) siblings(t int) []int {
+	var out []int
+	for i := range g.sp.Providers {
+		p := &g.sp.Providers[i]
+		has := false
+		for _, o := range p.Out {
+			if o == t {
+				has = true
+			}
+			for _, it := range g.sp.Types[o].Impl {
+				if it == t {
+					has = true
+				}
+			}
+		}
+		if !has {
+			continue
+		}
+		for _, o := range p.Out {
+			if o != t {
+				out = append(out, o)
+			}
+			for _, it := range g.sp.Types[o].Impl {
+				if it != t {
+					out = append(out, it)
+				}
+			}
+		}
+	}
+	return out
+}
+
+// tree builds a declaration backwards from the requested type: every provider is needed, leaves are
+// input-free, a few results are shared (DAG). Such graphs are "tight": no unneeded provider, no spare pool.
+func (g *genState) tree(budget *int, depth int, fallP int) int {
+	r := g.r
+	k := 0
+	if *budget > 0 && depth < 4 && (depth == 0 || !r.Chance(1, 4)) {
+		k = 1 + r.Intn(3)
+	}
+	var in []int
+	for j := 0; j < k; j++ {
+		switch {
+		case len(g.avail) > 0 && r.Chance(1, 6):
+			t := g.avail[r.Intn(len(g.avail))]
+			dup := false
+			for _, x := range in {
+				if x == t {
+					dup = true
+				}
+			}
+			if !dup {
+				in = append(in, t)
+			}
+		case r.Chance(1, 12):
+			t := g.newType(g.freshValueKind())
+			in = append(in, t) // an injector parameter
+		default:
+			*budget--
+			in = append(in, g.tree(budget, depth+1, fallP))
+		}
+	}
+	p := Provider{Name: fmt.Sprintf("P%d", len(g.sp.Providers)), Form: "func", In: in}
+	kind := KPtr
+	if depth > 0 && r.Chance(1, 3) {
+		kind = g.freshValueKind()
+	}
+	out := g.newType(kind)
+	p.Out = []int{out}
+	if r.Chance(1, 6) {
+		p.Out = append(p.Out, g.newType(g.freshValueKind()))
+	}
+	p.Fallible = r.Intn(6) < fallP
+	g.sp.Providers = append(g.sp.Providers, p)
+	g.avail = append(g.avail, p.Out...)
+	return out
 }
 
 var adversarial = []string{"App", "Config", "Num", "Str", "Val", "Ctx", "Eg", "Err", "Err0", "Ch", "Zero", "FooCh", "Foo", "Foo0", "Context", "Errgroup", "Kessoku", "Flag", "Ptr", "Complex", "Arg0", "Result0", "App0", "AppCh", "Service", "Service0"}
@@ -189,7 +279,7 @@ func genOnce(r *Rand, pkg string, prof Profile) *Spec {
 	if r.Chance(1, 3) {
 		nProv = 1 + r.Intn(4) // many small programs
 	}
-	shapes := []string{"random", "chain", "fan", "diamond", "syncroot", "joinsink", "layered", "layered", "layered"}
+	shapes := []string{"random", "chain", "fan", "diamond", "syncroot", "joinsink", "layered", "layered", "layered", "tree", "tree"}
 	shape := shapes[r.Intn(len(shapes))]
 	g.sp.Shape = shape
 	recency := 0
@@ -215,6 +305,12 @@ func genOnce(r *Rand, pkg string, prof Profile) *Spec {
 		fallP = 2
 	}
 	ctxP := r.Intn(3) // x/12 chance that a provider takes context.Context
+	treeRoot := -1
+	if shape == "tree" {
+		budget := 3 + r.Intn(8)
+		treeRoot = g.tree(&budget, 0, fallP)
+		nProv = 0
+	}
 	for i := 0; i < nProv; i++ {
 		k := r.Intn(4)
 		if shape == "joinsink" && i == nProv-1 {
@@ -337,8 +433,8 @@ func genOnce(r *Rand, pkg string, prof Profile) *Spec {
 	}
 
 	// most programs end in a sink that joins several branches, so that the needed closure is wide
-	sinkOut := -1
-	if len(g.sp.Providers) >= 2 && r.Chance(3, 4) {
+	sinkOut := treeRoot
+	if treeRoot < 0 && len(g.sp.Providers) >= 2 && r.Chance(3, 4) {
 		var outs []int
 		for i := range g.sp.Providers {
 			p := &g.sp.Providers[i]
@@ -442,7 +538,7 @@ func genOnce(r *Rand, pkg string, prof Profile) *Spec {
 		return ref.NeededUses*2 + ref.FieldReads
 	}
 	pickRet := func() int {
-		if sinkOut >= 0 && r.Chance(4, 5) {
+		if sinkOut >= 0 && (r.Chance(4, 5) || treeRoot >= 0) {
 			return sinkOut
 		}
 		if len(argCands) > 0 && r.Chance(1, 50) {
@@ -597,14 +693,14 @@ func (g *genState) variant(base []Use, k int) []Use {
 	uses := make([]Use, len(base))
 	copy(uses, base)
 	mode := r.Intn(9)
-	if g.sp.Shape == "layered" && r.Chance(1, 2) {
+	if (g.sp.Shape == "layered" || g.sp.Shape == "tree") && r.Chance(1, 2) {
 		mode = 5 + r.Intn(4) // mostly asynchronous service graphs, often with synchronous roots / sinks
 	}
 	if g.prof.WantAsync && mode == 0 {
 		mode = 2
 	}
 	if g.prof.MinAsyncFree > 0 {
-		mode = 3 + r.Intn(3)
+		mode = []int{3, 4, 5, 8, 8}[r.Intn(5)]
 	}
 	// which providers produce nothing anyone else consumes (sinks)
 	consumed := map[int]bool{}
